@@ -41,10 +41,36 @@ CHECKS.update({
         "technique": "name resolution against installed package sources + named-axis abstract interpretation + constraint-domain containment",
     },
 })
+CHECKS.update({
+    "C08": {
+        "text": "The closed-form part of the property is decided exactly: index spaces of every stock read in the split finder (named-axis "
+                "interpretation of the desugared .pyx), each gain bundle's canonical rational form equals the objective increase derived "
+                "inside the checker by bilinearity of the kernel stock, tracker mirror symmetry, order-domain implication of the "
+                "running-best guards, admissibility guards, application in Kauri.fit. NOT decided: the incremental stock updates along "
+                "the scan, tie handling, floating-point error, and whether the prebuilt extension matches the .pyx.",
+        "note": "trusted: the line-preserving Cython desugarer (regex over the subset used), true division, the stock signature table.",
+        "technique": "algebraic value numbering (canonical rational forms) + named-axis abstract interpretation + mirror comparison + order-domain enumeration",
+    },
+    "C09": {
+        "text": "Structural limits and tree encoding: guards of every worklist insertion, loop guards, integer linear implication of the "
+                "min-leaf window, observed thresholds, parallel-array growth and child ids under the inductive invariant n_nodes=2*leaves-1, "
+                "comparator agreement between fit, predict and score. NOT decided: label contiguity, depth arithmetic beyond the guards.",
+        "note": "trusted: the Cython desugarer; np.argsort ascending; validated hyper-parameter domains.",
+        "technique": "guard agreement on the syntax tree + linear-form implication + canonical-form comparison",
+    },
+    "C10": {
+        "text": "All clauses are structural: the strided-slice partition idiom is proved from the CFG (counter from 0, test, slice width = "
+                "stride, single step, permutation of len(X)), alignment by single-definition index variable plus named-axis interpretation, "
+                "epochs x batches, the nonparametric override, the mlcl wrapper and the validation blocks. This is close to a proof of the "
+                "property under the stated numpy indexing semantics.",
+        "note": "trusted: RandomState.permutation, numpy indexing semantics, validated batch_size >= 1.",
+        "technique": "CFG idiom proof with reaching definitions and canonical forms + named-axis abstract interpretation",
+    },
+})
 NOT_APPLICABLE = {
     "C05": "exact-minimiser property over all real matrices: value-level, no structural clause that is both necessary and "
            "non-brittle beyond what C06 checks (DESIGN.md §7)",
 }
-for _p in ["C01","C06","C07","C08","C09","C10","C11","C12","C13","C14","C15","C17","C18","C19","C20"]:
+for _p in ["C01","C06","C07","C11","C12","C13","C14","C15","C17","C18","C19","C20"]:
     if _p not in CHECKS:
         NOT_APPLICABLE[_p] = PENDING
